@@ -572,7 +572,7 @@ func c09RunRound(t *testing.T, rd *c09Round, guardedAltSvc bool) (out c09Outcome
 	}
 	hostOfAddr := map[string]int{oa.addr(): 1, ob.addr(): 2, strings.TrimPrefix(h2srv.URL, "https://"): 3}
 
-	cl := C().EnableInsecureSkipVerify().SetTimeout(30 * time.Second)
+	cl := C().EnableInsecureSkipVerify().SetTimeout(10 * time.Second)
 	cl.SetLogger(nil)
 	tr := cl.GetTransport()
 	tr.Proxy = nil
@@ -760,7 +760,14 @@ func c09RunRound(t *testing.T, rd *c09Round, guardedAltSvc bool) (out c09Outcome
 			}
 		}(reqs)
 	}
-	wg.Wait()
+	allDone := make(chan struct{})
+	go func() { wg.Wait(); close(allDone) }()
+	select {
+	case <-allDone:
+	case <-time.After(90 * time.Second):
+		// callers that outlive every client timeout: a wedged read/write loop or a lost wake-up
+		panic("verif: callers still blocked 90 s after the round started although the client timeout is 10 s (wedged connection or lost hand-off)")
+	}
 	close(stop)
 	bg.Wait()
 	c09Sample(tr, rec, hostOfAddr)
@@ -892,6 +899,7 @@ func TestVerif_C09_stress(t *testing.T) {
 	rounds := verifh.N(35, 400)
 	kinds := []string{"h1", "h1", "mixed", "h1", "mixed", "h3forced", "altsvc"}
 	tag := 0
+	nBad := 0
 	for i := 0; i < rounds; i++ {
 		kind := kinds[i%len(kinds)]
 		if kind == "altsvc" && c09RaceEnabled && !guarded {
@@ -904,7 +912,7 @@ func TestVerif_C09_stress(t *testing.T) {
 		var oc c09Outcome
 		if txt, bad := verifh.Safely(func() { oc = c09RunRound(t, rd, guarded) }); bad {
 			s.Crash(fmt.Sprintf("round %d", i), rd.kind, txt, "")
-			continue
+			break // a panicking / wedged round leaves goroutines behind: stop the lane
 		}
 		s.Count("round-" + rd.kind)
 		for k, v := range oc.stat {
@@ -921,6 +929,12 @@ func TestVerif_C09_stress(t *testing.T) {
 		if oc.knownH2Unusable > 0 {
 			s.Observe(fmt.Sprintf("round-%d-h2-unusable", i), false, c09ClassH2Unusable, false, human,
 				fmt.Sprintf("%d callers got \"http2: client conn not usable\" under DisableKeepAlives", oc.knownH2Unusable))
+		}
+		if !ok {
+			nBad++
+			if nBad >= 3 { // failing rounds usually mean hung callers (10 s each): stop early
+				break
+			}
 		}
 	}
 	s.Finish()
